@@ -8,7 +8,8 @@ Oracle   stdout parsed into blocks ('Info with history at path', 'Child History 
          the blocks must name exactly the histories at or below the root, each exactly once, each listing exactly
          the generations and creation dates that the independent reader finds in the manifests, ascending.
          -sf: exactly one line per (generation, format, digest, action) recorded for that path in the nearest
-         enclosing history, in generation order.  Exit 30 without history (both forms), also for a
+         enclosing history, in generation order.  The same with -v (which only adds detail lines) and with the
+         folder named relative to the working directory.  Exit 30 without history (both forms), also for a
          folder above all histories.  Two or three -sf options in one call print one such block per file, in order.
 """
 import posixpath
@@ -28,7 +29,7 @@ RULE = (
 )
 ASSUMPTIONS = ["names contain no line breaks (control characters are outside the domain)"]
 BUDGET = {"quick": (220, 4), "thorough": (32000, 16)}
-REQUIRED = ["nested", "multi_action_file", "no_history", "sf_noroot", "sf_root", "sf_relative", "deep_nesting", "renamed_file", "bulk_history", "symlinked_file", "sf_multi_noroot", "sf_multi_root", "no_own_history_but_below"]
+REQUIRED = ["nested", "multi_action_file", "no_history", "sf_noroot", "sf_root", "sf_relative", "deep_nesting", "renamed_file", "bulk_history", "symlinked_file", "sf_multi_noroot", "sf_multi_root", "no_own_history_but_below", "verbose", "sf_verbose", "root_relative"]
 
 CFG = {
     "kinds": ["create"] * 6 + ["create_sf"] * 2 + ["put_new", "overwrite", "overwrite", "restore"],
@@ -39,6 +40,7 @@ CFG = {
     "min_top": 1,
 }
 GEN_RE = re.compile(r"^  Generation (\d+) \((.*)\)$")
+SFV_RE = re.compile(r"^  Generation (\d+) \((.*?)\) (\w+): (\S+) \((\w+)\) ?$")
 SF_RE = re.compile(r"^  Generation (\d+) \((.*?)\) (\w+): (\S+) \((\w+)\)$")
 
 
@@ -122,7 +124,7 @@ def run_bulk(scn, ctx):
         return w.trace[-6:]
 
 
-def parse_info(out):
+def parse_info(out, verbose=False):
     """-> list of (history path, [(n, date)])"""
     blocks = []
     cur = None
@@ -137,6 +139,8 @@ def parse_info(out):
             m = GEN_RE.match(l)
             if m and cur is not None:
                 cur[1].append((int(m.group(1)), m.group(2)))
+            elif verbose and (l.startswith("     CreatorInfo: ") or l.startswith("     ProcessInfo: ")):
+                continue
             elif l.strip():
                 blocks.append(("?", [l]))
     return blocks
@@ -171,15 +175,30 @@ def run_case(scn, ctx):
             feats.add("nested")
         if any(sum(1 for r in roots if w.under(x, r)) >= 3 for x in roots):
             feats.add("deep_nesting")
-        for r in roots:
-            res = w.info(r)
+        for r, form in [(r, f) for r in roots for f in ("abs", "verbose", "relative")]:
+            if form == "relative":
+                # the folder named relative to the working directory
+                import os as _os
+
+                a0 = _os.path.basename(w.abs(r))
+                res = w.run("info", ["./" + a0 if a0.startswith("-") else a0], cwd=_os.path.dirname(w.abs(r)))
+                feats.add("root_relative")
+            elif form == "verbose":
+                res = w.info(r, flags=["-v"])
+                feats.add("verbose")
+            else:
+                res = w.info(r)
             require(res.exc is None and res.exit_code == 0, "info-exit", res.brief(), res)
-            blocks = parse_info(res.stdout)
+            blocks = parse_info(res.stdout, verbose=(form == "verbose"))
             junk = [b for b in blocks if b[0] == "?"]
             require(not junk, "info-format", "unexpected output lines: %r" % junk[:3], res)
             want = {w.abs(h): [(n, d["creatorinfo"].get("creationdate")) for n, p, d in docs[h]] for h in roots if w.under(h, r)}
             got = {}
             for path, gens in blocks:
+                if form == "relative":
+                    import posixpath as _pp
+
+                    path = _pp.normpath(path)  # (the folder is printed as typed: cwd + "./-name")
                 require(path not in got, "info-histories", "history %r listed twice" % path, res)
                 got[path] = gens
             require(set(got) == set(want), "info-histories", "info lists histories %s, on disk %s" % (sorted(got), sorted(want)), res)
@@ -240,6 +259,18 @@ def run_case(scn, ctx):
                 require(sorted(got) == sorted(lines), "sf-lines", "info -sf %r prints %r, manifests hold %r" % (relp, got, lines), res)
                 require([g[0] for g in got] == sorted(g[0] for g in got), "sf-order", "not in generation order: %r" % got, res)
                 feats.add("sf_" + form)
+            has_prev = any(rec["previous"] for hh in roots for n_, p_, d_ in docs[hh] for rec in d_["records"] if hh == h and rec["path"] == relp)
+            if not has_prev:
+                # -v adds detail lines; the digest lines stay exactly those recorded
+                res = w.info(h, sf=[full], flags=["-v"])
+                require(res.exc is None and res.exit_code == 0, "sf-exit", "-v: " + res.brief(), res)
+                gotv = []
+                for l in res.stdout.split("\n"):
+                    m = SFV_RE.match(l)
+                    if m:
+                        gotv.append((int(m.group(1)), m.group(2), m.group(3), m.group(4), m.group(5)))
+                require(sorted(gotv) == sorted(lines), "sf-lines", "info -v -sf %r prints %r, manifests hold %r" % (relp, gotv, lines), res)
+                feats.add("sf_verbose")
             if len(lines) >= 3 and len({x[4] for x in lines}) >= 2:
                 feats.add("multi_action_file")
             if any(rec["previous"] for hh in roots for n_, p_, d_ in docs[hh] for rec in d_["records"] if hh == h and rec["path"] == relp):
